@@ -241,6 +241,28 @@ def _(S, z):
     return [t], lambda: pb.snippet(z, t, 1)
 
 
+@op("snippet-tiny-frac", "signal", None, 2)
+def _(S, z):
+    # a fractional offset so small that time_shift treats it as "no shift" (its numpy.allclose early return hands back the input object)
+    t = S.real("t")
+    S.assume(t > 0)
+    S.assume(t < Fraction(1, 10**8))
+    return [t], lambda: pb.snippet(z, t, 1)
+
+
+@op("time_shift-float-array", "signal", "swapped", 2)
+def _(S, z):
+    # a float64 shift array, entries possibly beyond the signal length
+    vals = []
+    for k in range(2):
+        v = S.real(f"sf{k}")
+        S.assume(v > -5)
+        S.assume(v < 5)
+        vals.append(v)
+    arr = SymND(np.array(vals, dtype=object), np.float64) if S.symbolic else np.array(vals, dtype=np.float64)
+    return [arr], lambda: pb.time_shift(z, arr)
+
+
 @op("time_shift-scalar", "signal", "strided", 2)
 def _(S, z):
     s = S.int("s", -3, 3)
